@@ -1,0 +1,11 @@
+//go:build verif
+
+package routing
+
+import "github.com/grpc-ecosystem/grpc-gateway/v2/runtime"
+
+// VerifBuildPatternValue returns what buildPattern returns for a binding template: the pattern PatternRouter
+// would route with (the harness reads its fields by reflection), or the error.
+func VerifBuildPatternValue(tmpl string) (runtime.Pattern, error) {
+	return buildPattern(tmpl)
+}
